@@ -36,6 +36,9 @@ TRAJ = ("qpos", "qvel", "act", "time", "qacc", "qacc_warmstart", "sensordata", "
 MASKS = ("none", "all", "empty", "single", "zero", "notzero", "random")
 DTYPES = ("bool", "int32", "uint8", "int64")
 
+CAPS = dict(nconmax=40, njmax=160)  # one capacity class for every model: bounds kernel specialisations
+STALE_VEL = ("cvel", "cdof_dot", "subtree_linvel")
+
 PROFILE = gen.profile(
   nbody=(2, 6),
   collide=True,
@@ -159,9 +162,9 @@ def _scenario(rec, mjm, m, xml, rng, sc, sleep):
   states = [gen.sample_state(mjm, rng, vel=float(rng.choice([0.05, 1.0])) if sleep else 1.0, quat_scale=False) for _ in range(nworld)]
   for s in states:
     s["qacc_warmstart"] = rng.normal(size=mjm.nv).astype(np.float32)
-  A = mw.make_data(mjm, m, states)
-  B = mw.make_data(mjm, m, states)
-  F = mjw.make_data(mjm, nworld=nworld)
+  A = mw.make_data(mjm, m, states, **CAPS)
+  B = mw.make_data(mjm, m, states, **CAPS)
+  F = mjw.make_data(mjm, nworld=nworld, **CAPS)
   fresh0 = _snap(F, STATE)
   for _ in range(H):
     inp = S.sample_inputs(mjm, rng, nworld)
@@ -265,6 +268,22 @@ def _scenario(rec, mjm, m, xml, rng, sc, sleep):
       rec.viol("reset:get_data_into-ncon-inconsistent", f"get_data_into ncon {res.ncon} vs pool {len(ca['dist'])} world {w}")
   rec.count("unselected_with_contacts", sum(1 for w in uns if len(conB[w]["dist"]) > 0))
 
+  # ---- stale velocity-stage arrays of reset worlds (read by connect/weld rows before com_vel recomputes them):
+  # A2 keeps them, A gets them zeroed as in a fresh Data; one step tells whether they matter.
+  A2 = None
+  import mujoco
+
+  eq_cw = bool(np.any(np.isin(mjm.eq_type, (int(mujoco.mjtEq.mjEQ_CONNECT), int(mujoco.mjtEq.mjEQ_WELD))) & (np.asarray(mjm.eq_active0) != 0)))
+  stale = [w for w in sel if any(post[k][w].tobytes() != _snap(F, (k,))[k][w].tobytes() for k in STALE_VEL)]
+  if stale:
+    A2 = S.clone_into(mjw.make_data(mjm, nworld=nworld, **CAPS), A)
+    for k in STALE_VEL:
+      a = np.array(mw.npy(getattr(A, k)))
+      f = np.array(mw.npy(getattr(F, k)))
+      for w in stale:
+        a[w] = f[w]
+      S.set_field(A, k, a)
+
   # ---- subsequent trajectory
   live = {w: True for w in range(nworld)}
   for t in range(T):
@@ -272,6 +291,26 @@ def _scenario(rec, mjm, m, xml, rng, sc, sleep):
     for d in (A, B, F):
       S.apply_inputs(d, inp)
       mjw.step(m, d)
+    if t == 0 and A2 is not None:
+      S.apply_inputs(A2, inp)
+      mjw.step(m, A2)
+      s1, s2 = _snap(A, TRAJ), _snap(A2, TRAJ)
+      for w in stale:
+        rec.check()
+        rel = S.max_rel_diff(s1, s2, TRAJ, w)
+        if rel >= 1e-2:
+          if eq_cw:
+            rec.viol(
+              "reset:stale-cvel-read-by-equality-aref",
+              f"first step of reset world {w} changes by rel {rel:.3g} when its stale cvel/cdof_dot/subtree_linvel (left over from before reset_data) are zeroed as in a fresh Data; model has active connect/weld equalities whose aref is assembled before com_vel runs",
+            )
+            rec.count("stale_cvel_equality")
+          else:
+            rec.viol("reset:stale-cvel-changes-next-step", f"first step of reset world {w} changes by rel {rel:.3g} when stale cvel/cdof_dot/subtree_linvel are zeroed (no active connect/weld in the model)")
+        elif rel > 1e-4:
+          rec.inconcl("stale cvel: effect between round-off and violation line")
+        else:
+          rec.count("stale_cvel_no_effect")
     sa, sb, sf = _snap(A, TRAJ), _snap(B, TRAJ), _snap(F, TRAJ)
     for w in range(nworld):
       if not live[w]:
